@@ -320,4 +320,172 @@ theorem readVtk_toVtk {ver cls : Str} {m : Mesh} (hv : WFTok ver) (hc : WFTok cl
   simp [vtkLines, vtkHdr, readVtkBody, vtkTypes, parseNat_dec, List.flatMap_def.symm, takeVerts_flat, hF,
     checked, h.inRange]
 
+/-! ## STL -/
+
+def ttoks (k : Tok) (v : V3T) : List Tok := [k, v.1, v.2.1, v.2.2]
+
+def facetLines (n a b c : V3T) : List (Nat × List Tok) :=
+  [(0, [cs!"facet", cs!"normal", n.1, n.2.1, n.2.2]), (1, [cs!"outer", cs!"loop"]),
+   (2, ttoks cs!"vertex" a), (2, ttoks cs!"vertex" b), (2, ttoks cs!"vertex" c),
+   (1, [cs!"endloop"]), (0, [cs!"endfacet"])]
+
+/-- corner tokens of the fan triangles, face after face -/
+def stlTris (m : Mesh) : List (V3T × V3T × V3T) :=
+  m.faces.flatMap fun f => (fan f).map fun t => (vat m t.1, vat m t.2.1, vat m t.2.2)
+
+def stlLines (cls : Str) (nrm : V3T → V3T → V3T → V3T) (m : Mesh) : List (Nat × List Tok) :=
+  ((0, [cs!"solid", cls]) :: (stlTris m).flatMap fun t => facetLines (nrm t.1 t.2.1 t.2.2) t.1 t.2.1 t.2.2)
+  ++ [(0, [cs!"endsolid", cls])]
+
+theorem unl_append_last : ∀ (A : List Str) (l : Str), unl A ++ l = join cs!"\n" (A ++ [l]) := by
+  intro A l
+  induction A with
+  | nil => simp [join]
+  | cons a A ih =>
+    rw [unl_cons, List.cons_append, join_cons_ne _ _ (by simp), ← ih]
+    simp
+
+set_option maxRecDepth 8000 in
+theorem stlTriangle_eq (nrm : V3T → V3T → V3T → V3T) (a b c : V3T) :
+    stlTriangle nrm a b c = unl ((facetLines (nrm a b c) a b c).map lineI) := by
+  simp only [stlTriangle, facetLines, ttoks, List.foldl, List.map, lineI, unl_cons, unl_nil, spaced, join,
+    List.replicate]
+  simp only [List.append_assoc, List.cons_append, List.nil_append, List.append_nil]
+
+theorem foldl_foldl_append {α β} (tris : α → List β) (g : β → Str) (fs : List α) (c0 : Str) :
+    fs.foldl (fun file f => (tris f).foldl (fun file t => file ++ g t) file) c0
+      = c0 ++ ((fs.flatMap tris).map g).flatten := by
+  have h1 : (fun (file : Str) f => (tris f).foldl (fun file t => file ++ g t) file)
+      = fun file f => file ++ ((tris f).map g).flatten := by
+    funext file f; exact foldl_append_eq g (tris f) file
+  rw [h1, foldl_append_eq]
+  congr 1
+  induction fs with
+  | nil => simp
+  | cons f fs ih => simp [ih]
+
+theorem toStl_eq (cls : Str) (nrm : V3T → V3T → V3T → V3T) (m : Mesh) :
+    toStl cls nrm m = renderI (stlLines cls nrm m) := by
+  unfold toStl renderI stlLines
+  simp only [List.nil_append]
+  simp only [List.map_append, List.map_cons, List.map_nil]
+  rw [← unl_append_last]
+  have := foldl_foldl_append (fun f => (fan f).map fun t => (vat m t.1, vat m t.2.1, vat m t.2.2))
+    (fun t => stlTriangle nrm t.1 t.2.1 t.2.2) m.faces (cs!"solid " ++ cls ++ cs!"\n")
+  rw [this]
+  have h2 : ∀ l : List (V3T × V3T × V3T),
+      (l.map fun t => stlTriangle nrm t.1 t.2.1 t.2.2).flatten
+        = unl ((l.flatMap fun t => facetLines (nrm t.1 t.2.1 t.2.2) t.1 t.2.1 t.2.2).map lineI) := by
+    intro l
+    induction l with
+    | nil => simp
+    | cons t l ih =>
+      rw [List.map_cons, List.flatten_cons, ih, List.flatMap_cons, List.map_append, unl_append, stlTriangle_eq]
+  rw [h2]
+  simp [stlTris, unl, lineI, spaced, join, List.append_assoc]
+
+
+theorem filter_nonempty_id' {ws : List (List Tok)} (h : ∀ w ∈ ws, w ≠ []) :
+    ws.filter (fun w => !w.isEmpty) = ws := by
+  rw [List.filter_eq_self]
+  intro w hw
+  have := h w hw
+  cases w <;> simp_all
+
+theorem fan_mem {f : List Nat} {t : Nat × Nat × Nat} (h : t ∈ fan f) : t.1 ∈ f ∧ t.2.1 ∈ f ∧ t.2.2 ∈ f := by
+  cases f with
+  | nil => simp [fan] at h
+  | cons a rest =>
+    simp only [fan, List.mem_map] at h
+    obtain ⟨bc, hbc, rfl⟩ := h
+    have h1 := (List.of_mem_zip hbc).1
+    have h2 := List.mem_of_mem_drop (List.of_mem_zip hbc).2
+    exact ⟨by simp, by simp [h1], by simp [h2]⟩
+
+theorem vat_mem {m : Mesh} {i : Nat} (h : i < m.verts.length) : vat m i ∈ m.verts := by
+  simp [vat, List.getElem?_eq_getElem h]
+
+theorem stlTris_mem {m : Mesh} (h : m.WF) {t : V3T × V3T × V3T} (ht : t ∈ stlTris m) :
+    t.1 ∈ m.verts ∧ t.2.1 ∈ m.verts ∧ t.2.2 ∈ m.verts := by
+  simp only [stlTris, List.mem_flatMap, List.mem_map] at ht
+  obtain ⟨f, hf, t', ht', rfl⟩ := ht
+  have := fan_mem ht'
+  exact ⟨vat_mem (h.range f hf _ this.1), vat_mem (h.range f hf _ this.2.1), vat_mem (h.range f hf _ this.2.2)⟩
+
+/-- the printed normal is a well-formed triple of tokens -/
+def WFNrm (nrm : V3T → V3T → V3T → V3T) : Prop :=
+  ∀ a b c, WFTok (nrm a b c).1 ∧ WFTok (nrm a b c).2.1 ∧ WFTok (nrm a b c).2.2
+
+theorem wf_stlLines {cls : Str} {nrm : V3T → V3T → V3T → V3T} {m : Mesh} (hc : WFTok cls) (hn : WFNrm nrm)
+    (h : m.WF) : ∀ l ∈ stlLines cls nrm m, ∀ t ∈ l.2, WFTok t := by
+  unfold stlLines
+  simp (config := {decide := true}) only [facetLines, ttoks, List.forall_mem_append, List.forall_mem_cons,
+    List.forall_mem_flatMap, List.not_mem_nil, implies_true, and_true, true_and, hc]
+  intro t ht
+  have hm := stlTris_mem h ht
+  have h1 := h.toks _ hm.1
+  have h2 := h.toks _ hm.2.1
+  have h3 := h.toks _ hm.2.2
+  have h0 := hn t.1 t.2.1 t.2.2
+  simp [h0.1, h0.2.1, h0.2.2, h1.1, h1.2.1, h1.2.2, h2.1, h2.2.1, h2.2.2, h3.1, h3.2.1, h3.2.2]
+
+def facetOf (nrm : V3T → V3T → V3T → V3T) (t : V3T × V3T × V3T) : Facet :=
+  (nrm t.1 t.2.1 t.2.2, t.1, t.2.1, t.2.2)
+
+def facetToks (n a b c : V3T) : List (List Tok) := (facetLines n a b c).map (·.2)
+
+theorem stlFacets_cons (n a b c : V3T) (rest : List (List Tok)) :
+    stlFacets (facetToks n a b c ++ rest) = (stlFacets rest).map ((n, a, b, c) :: ·) := by
+  simp only [facetToks, facetLines, List.map_cons, List.map_nil, List.cons_append, List.nil_append, stlFacets]
+  simp [stlFacet, stlVertex, ttoks]
+
+theorem stlFacets_lines (cls : Str) (nrm : V3T → V3T → V3T → V3T) (ts : List (V3T × V3T × V3T)) :
+    stlFacets ((ts.flatMap fun t => facetToks (nrm t.1 t.2.1 t.2.2) t.1 t.2.1 t.2.2)
+      ++ [[cs!"endsolid", cls]]) = some (ts.map (facetOf nrm)) := by
+  induction ts with
+  | nil => simp [stlFacets]
+  | cons t ts ih =>
+    rw [List.flatMap_cons, List.append_assoc, stlFacets_cons, ih]
+    simp [facetOf]
+
+theorem readStl_toStl {cls : Str} {nrm : V3T → V3T → V3T → V3T} {m : Mesh} (hc : WFTok cls) (hn : WFNrm nrm)
+    (h : m.WF) : readStl (toStl cls nrm m) = some ((stlTris m).map (facetOf nrm)) := by
+  unfold readStl
+  rw [toStl_eq, tokenize_renderI (by simp [stlLines]) (wf_stlLines hc hn h)]
+  have hne : ∀ l ∈ (stlLines cls nrm m).map (·.2), l ≠ [] := by
+    simp only [stlLines, facetLines, ttoks, List.map_append, List.map_cons, List.map_nil, List.map_flatMap,
+      List.forall_mem_append, List.forall_mem_cons, List.forall_mem_flatMap, List.not_mem_nil]
+    simp
+  rw [filter_nonempty_id' hne]
+  have := stlFacets_lines cls nrm (stlTris m)
+  simp only [stlLines, List.map_append, List.map_cons, List.map_nil, List.cons_append, List.map_flatMap]
+  simpa [facetToks] using this
+
+
+/-! fan triangulation -/
+
+theorem fan_length (f : List Nat) : (fan f).length = f.length - 2 := by
+  cases f with
+  | nil => rfl
+  | cons a rest => simp [fan]
+
+theorem fan_getElem? (f : List Nat) (i : Nat) (h : i + 2 < f.length) :
+    (fan f)[i]? = some (f[0]!, f[i + 1]!, f[i + 2]!) := by
+  cases f with
+  | nil => simp at h
+  | cons a rest =>
+    have h1 : i + 1 < rest.length := by simp at h; omega
+    have h2 : i < rest.length := by omega
+    simp [fan, List.getElem?_zip_eq_some, h1, h2, List.getElem?_eq_getElem]
+
+theorem fan_unfan (f : List Nat) (h : 3 ≤ f.length) : f.take 2 ++ (fan f).map (·.2.2) = f := by
+  match f, h with
+  | a :: b :: rest, _ =>
+    simp only [fan, List.map_map, List.drop_one, List.tail_cons, List.take]
+    have : ((b :: rest).zip rest).map ((fun t : Nat × Nat × Nat => t.2.2) ∘ fun bc => (a, bc.1, bc.2)) = rest := by
+      have : ((fun t : Nat × Nat × Nat => t.2.2) ∘ fun (bc : Nat × Nat) => (a, bc.1, bc.2)) = Prod.snd := rfl
+      rw [this, List.map_snd_zip]
+      simp
+    simp [this]
+
 end MeshIO
